@@ -599,9 +599,42 @@ static void p6_run(uint64_t idx, vh_rng_t * rng) {
     vh_buf_free(&b);
 }
 
+/* ---- well-formed units delivered through the input function in one piece and cut in two at EVERY position: the unit is accepted (its
+ * handler runs once, sees all N items, nothing is queued) wherever the cut falls - inside #H before its first digit, inside an unclosed
+ * expression, inside a string or block that contains a line terminator -------------------------------------------------------------------- */
+static int p7_inv, p7_items;
+static scpi_result_t p7_handler(scpi_t * c) { scpi_parameter_t p; p7_inv++; while (SCPI_Parameter(c, &p, FALSE)) p7_items++; return SCPI_RES_OK; }
+static const scpi_command_t p7_cmds[] = { { "DATA:X", p7_handler, 0 }, SCPI_CMD_LIST_END };
+static uint64_t p7_count(int thorough) { return vh_scaled(thorough ? 60000 : 6000); }
+static void p7_run(uint64_t idx, vh_rng_t * rng) {
+    static const char * const items[] = { "1", "-2.5e3", "#HFF", "#Q17", "#B101", "#h0", "MIN", "\"s,\"\"x\"", "'q'", "'a\nb'", "\"\r\n;\"", "(1,2)", "(@1!2:3!4)", "#13a,b", "#14\n;\r\"", "#0" /* replaced below */, "3 V", "4 e-2", "''" };
+    int N = 1 + (int) vh_below(rng, 5), i; vh_buf_t b = { 0, 0, 0 }; size_t k; vh_ctx_t * v;
+    (void) idx;
+    vh_buf_adds(&b, vh_chance(rng, 1, 2) ? "DATA:X " : ":data:x\t");
+    for (i = 0; i < N; i++) { const char * it = items[vh_below(rng, sizeof items / sizeof items[0])]; if (strcmp(it, "#0") == 0) it = "#210abc\ndef;,\""; if (i) vh_buf_adds(&b, vh_chance(rng, 1, 4) ? " , " : ","); vh_buf_adds(&b, it); }
+    vh_buf_adds(&b, vh_chance(rng, 1, 3) ? "\r\n" : "\n");
+    vh_case_desc("unit \"%s\" (%d items) whole and cut in two at every position", vh_esc(b.p, b.len), N);
+    for (k = 0; k < b.len; k++) { /* k == 0: in one piece */
+        v = vh_ctx_new(p7_cmds, 128, 4, 64); v->log_enabled = 0;
+        p7_inv = p7_items = 0;
+        if (k) { vh_input(v, b.p, k); vh_input(v, b.p + k, b.len - k); } else vh_input(v, b.p, b.len);
+        vh_eval(1);
+        if (p7_inv != 1 || p7_items != N || v->nerrs || v->ctx->buffer.position != 0) {
+            vh_violation(k ? "C13:wellformed-unit-not-accepted-when-cut-in-two" : "C13:wellformed-unit-not-accepted", "unit \"%s\" with %d items %s%zu: handler ran %d time(s) and saw %d item(s), %d error(s) (first %d), %zu byte(s) left pending",
+                         vh_esc(b.p, b.len), N, k ? "cut before byte " : "in one piece, ", k, p7_inv, p7_items, v->nerrs, v->nerrs ? v->errs[0] : 0, (size_t) v->ctx->buffer.position);
+            vh_ctx_free(v); break;
+        }
+        vh_ctx_free(v);
+    }
+    vh_count("input.units_cut_in_two_at_every_position", 1);
+    vh_distinct(vh_hash(b.p, b.len, 77));
+    vh_buf_free(&b);
+}
+
 int main(int argc, char ** argv) {
     static const vh_phase_t phases[] = {
         { "longlists", p6_count, p6_run },
+        { "units through the input function", p7_count, p7_run },
         { "enum-class", p0_count, p0_run },
         { "enum-union", p1_count, p1_run },
         { "bytesweep", p2_count, p2_run },
@@ -620,6 +653,6 @@ int main(int argc, char ** argv) {
     vh_require("mode.len_cut.text_continues_after_cut"); vh_require("input.with_8bit_byte"); vh_require("input.with_nul_byte"); vh_require("input.longer_than_255");
     vh_require("string.incomplete"); vh_require("alldata.dangling_comma");
     vh_require("long.runs_of_a_multiple_of_256");
-    vh_require("longlist.units");
-    return vh_main(argc, argv, "C13", phases, 7);
+    vh_require("longlist.units"); vh_require("input.units_cut_in_two_at_every_position");
+    return vh_main(argc, argv, "C13", phases, 8);
 }
